@@ -865,7 +865,7 @@ class GenA:
             return None         # configurations with different internal_precision would parse such a target differently
         conc = self.fmt_conc(c, units, digits=5 if self.round else 9)
         ev = {'op': 'dilute', 'tgt': [t[0], t[1]], 'solute': solute, 'conc': conc, 'solvent': solvent, 'obs': rng.randrange(1 << 30)}
-        if rng.random() < 0.2:
+        if rng.random() < (0.6 if cls == 'same' else 0.2):
             self.n_sol += 1
             ev['name'] = f"D{self.n_sol}"
         return ev
